@@ -1143,4 +1143,32 @@ def parsePoscar (text : List Char) : Option ParsedPoscar := do
     | _ => none
   | [] => none
 
+/-! ### generic table reader (whitespace-separated numbers, optional line of column names) -/
+
+/-- the exact value the text of a written cell denotes. -/
+def Cell.val (f : Fmt) : Cell → Rat
+  | .int i => (i : Rat)
+  | .num q => fmtVal f q
+
+structure ParsedTable where
+  columns : Option Line
+  rows : List (List Rat)
+deriving Repr
+
+/-- every line is a row of numbers; with `header` the first line names the columns and every row must have
+    exactly that many fields. -/
+def parseTable (text : List Char) (header : Bool) : Option ParsedTable :=
+  if header then
+    match lexDoc text with
+    | h :: rest => do
+      let rows ← rest.mapM fun l => if l.length ≠ h.length then none else l.mapM parseNum?
+      pure { columns := some h, rows := rows }
+    | [] => none
+  else do
+    let rows ← (lexDoc text).mapM fun l => l.mapM parseNum?
+    pure { columns := none, rows := rows }
+
+/-- component-wise image of a vector (used to state "every number at its printed precision"). -/
+def v3map (g : Rat → Rat) (v : V3 Rat) : V3 Rat := ⟨g v.x, g v.y, g v.z⟩
+
 end Atomman.C07
